@@ -11,6 +11,7 @@ import (
 	"os"
 	"strings"
 	"sync"
+	"sync/atomic"
 	"time"
 
 	"github.com/russellhaering/gosaml2/verifsim"
@@ -31,6 +32,8 @@ type schedStats struct {
 	Deadlock   bool
 	Stuck      bool
 	Preemptive bool
+	Spawned    int // goroutines started by the library and scheduled as tasks
+	Leftover   int // of those, still waiting when every API call had returned
 }
 
 var schedStrategies = []string{"sequential", "random-walk", "pct", "switch-at-locks", "round-robin-fine"}
@@ -52,6 +55,7 @@ func runTasks(r *core.Run, bodies []func(), strategy string) schedStats {
 	done := make([]bool, n)
 	blocked := make([]bool, n)
 	remaining := n
+	static := n // tasks 0..static-1 are the API calls of the workload; later ones are goroutines the library started
 	h := sha256.New()
 	// PCT-style priorities and change points
 	prio := make([]int, n)
@@ -75,6 +79,28 @@ func runTasks(r *core.Run, bodies []func(), strategy string) schedStats {
 		cur = t.Int(n, "sched.first")
 	}
 	budget := 0 // yields the current task may still run before the next decision (random walk)
+	// register tasks created by go statements of the library
+	adopt := func(from, to int) {
+		for id := from; id < to; id++ {
+			for len(done) <= id {
+				done = append(done, false)
+				blocked = append(blocked, false)
+				prio = append(prio, -1-len(prio)) // below every initial priority
+				remaining++
+				n++
+			}
+			fmt.Fprintf(h, "s%d;", id)
+			st.Spawned++
+		}
+	}
+	staticLeft := func() bool {
+		for i := 0; i < static; i++ {
+			if !done[i] {
+				return true
+			}
+		}
+		return false
+	}
 	pickOther := func(exclude int) int {
 		var c []int
 		for i := 0; i < n; i++ {
@@ -98,6 +124,21 @@ func runTasks(r *core.Run, bodies []func(), strategy string) schedStats {
 	}
 	type res struct{ req verifsim.Request }
 	for remaining > 0 {
+		if !staticLeft() {
+			// every API call has returned; goroutines the library left behind (workers parked on a
+			// channel, ...) are not awaited: they are released when the scheduler is removed
+			allBlocked := true
+			for i := static; i < n; i++ {
+				if !done[i] && !blocked[i] {
+					allBlocked = false
+				}
+			}
+			if allBlocked {
+				st.Leftover = remaining
+				remaining = 0
+				break
+			}
+		}
 		if done[cur] || blocked[cur] {
 			nx := pickOther(cur)
 			if nx < 0 {
@@ -140,6 +181,7 @@ func runTasks(r *core.Run, bodies []func(), strategy string) schedStats {
 			return st
 		}
 		st.Yields++
+		adopt(req.SpawnFrom, req.SpawnTo)
 		if req.Done {
 			done[cur] = true
 			remaining--
@@ -240,8 +282,51 @@ func raceLogTail(from int64) string {
 	}
 	defer f.Close()
 	f.Seek(from, io.SeekStart)
-	b, _ := io.ReadAll(io.LimitReader(f, 6000))
+	b, _ := io.ReadAll(io.LimitReader(f, 60000))
 	return string(b)
+}
+
+// libraryRaces keeps the race reports whose two accesses are both made by library (or
+// dependency) code. A report in which one of the accesses is made by a harness function
+// (the entropy seam, the scheduler runtime, the controller) concerns harness memory: it can
+// only arise when the library starts goroutines of its own that outlive the scheduled phase,
+// and it says nothing about the library.
+func libraryRaces(rep string) string {
+	var keep []string
+	for _, blk := range strings.Split(rep, "==================") {
+		if !strings.Contains(blk, "DATA RACE") {
+			continue
+		}
+		lines := strings.Split(blk, "\n")
+		harness := false
+		for i, ln := range lines {
+			l := strings.TrimSpace(ln)
+			if !(strings.HasPrefix(l, "Read at") || strings.HasPrefix(l, "Write at") || strings.HasPrefix(l, "Previous read at") || strings.HasPrefix(l, "Previous write at") ||
+				strings.HasPrefix(l, "Atomic") || strings.HasPrefix(l, "Previous atomic")) {
+				continue
+			}
+			for j := i + 1; j < len(lines); j++ {
+				top := strings.TrimSpace(lines[j])
+				if top == "" {
+					break
+				}
+				if strings.HasPrefix(top, "runtime.") || strings.HasPrefix(top, "/") || strings.HasPrefix(top, "sync/atomic.") || strings.HasPrefix(top, "internal/") {
+					continue // runtime helper (slicecopy, memmove, ...) or a file:line row: look at its caller
+				}
+				if strings.HasPrefix(top, "verifsim/") || strings.HasPrefix(top, "github.com/russellhaering/gosaml2/verifsim.") || strings.HasPrefix(top, "main.") {
+					harness = true
+				}
+				break
+			}
+		}
+		if !harness {
+			keep = append(keep, blk)
+		}
+	}
+	if len(keep) == 0 {
+		return ""
+	}
+	return "==================" + strings.Join(keep, "==================") + "=================="
 }
 
 // raceSummary extracts the conflicting locations (library frames) from a race report.
@@ -278,11 +363,21 @@ type TaskEntropy struct {
 	short   bool    // serve at most 1-3 bytes per Read (short-read fault)
 	solo    int     // stream used outside scheduled execution
 	old     io.Reader
+	// foreign: bytes drawn by goroutines the library started itself while tasks are scheduled
+	// (they cannot be attributed to a task); served from the last stream with an atomic cursor
+	foreignPos atomic.Int64
+	// ambiguous: a task drew entropy while another task of the same family (a goroutine the library
+	// started on behalf of the same API call, or its parent) could run: the order of the draws is then
+	// a scheduling accident and bit-for-bit comparison with a solo execution is not defined
+	ambiguous bool
 }
+
+// Ambiguous: see the field.
+func (e *TaskEntropy) Ambiguous() bool { return e.ambiguous }
 
 func NewTaskEntropy(t *core.Tape, n int, short bool) *TaskEntropy {
 	e := &TaskEntropy{short: short, solo: 0}
-	for i := 0; i < n; i++ {
+	for i := 0; i < n+1; i++ { // the last stream is the foreign one
 		e.streams = append(e.streams, t.Bytes(8192, "entropy.stream"))
 		e.pos = append(e.pos, 0)
 		e.reads = append(e.reads, nil)
@@ -329,10 +424,32 @@ func (rr *recordingReader) Read(p []byte) (int, error) {
 
 func init() { rand.Reader = &recordingReader{inner: rand.Reader} }
 
+// ForeignUsed reports whether a goroutine that is not a task drew entropy during scheduled execution.
+func (e *TaskEntropy) ForeignUsed() bool { return e.foreignPos.Load() > 0 }
+
 func (e *TaskEntropy) Read(p []byte) (int, error) {
 	id := verifsim.Current()
 	if id < 0 {
 		id = e.solo
+	} else if _, mine := verifsim.OnTask(); !mine {
+		// a goroutine started by the library: unattributable, lock-free, no synchronisation contributed
+		verifsim.RaceOff()
+		f := len(e.streams) - 1
+		start := int(e.foreignPos.Add(int64(len(p)))) - len(p)
+		verifsim.RaceOn()
+		s := e.streams[f]
+		for i := range p {
+			p[i] = s[(start+i)%len(s)]
+		}
+		return len(p), nil
+	} else {
+		// goroutines the library started on behalf of an API call draw from that call's stream
+		if verifsim.NumTasks() > len(e.streams)-1 {
+			if verifsim.FamilyConcurrent(id) {
+				e.ambiguous = true
+			}
+			id = verifsim.RootOf(id)
+		}
 	}
 	n := len(p)
 	if e.short && n > 1 {
@@ -356,6 +473,9 @@ func (e *TaskEntropy) Reset(id int) { e.pos[id] = 0; e.reads[id] = nil }
 // Served returns the bytes served so far from stream id.
 func (e *TaskEntropy) Served(id int) []byte {
 	s := e.streams[id]
+	if id == len(e.streams)-1 {
+		e.pos[id] = int(e.foreignPos.Load())
+	}
 	out := make([]byte, e.pos[id])
 	for i := range out {
 		out[i] = s[i%len(s)]
